@@ -72,6 +72,13 @@ def run_property(mod, tier, seed, replay=None):
         info = {"replay_of": replay}
     else:
         cases, info = mod.gen_cases(tier, seed)
+        # regression corpus: inputs on which a seeded change or a repaired defect once violated the property run first
+        cp = os.path.join(V.VERIF, "corpus", prop + ".txt")
+        if os.path.exists(cp):
+            seen = set(cases)
+            corpus = [l for l in open(cp).read().splitlines() if l and not l.startswith("#") and l not in seen]
+            cases = corpus + cases
+            info = dict(info, corpus_cases=len(corpus))
     model = V.run_driver(drv, cases) if (drv and cases) else [None] * len(cases)
     evaluations = 0
     nontriv = set()
@@ -87,6 +94,8 @@ def run_property(mod, tier, seed, replay=None):
             so = None
             if mo is not None and " ## " in mo:
                 mo, so = mo.split(" ## ", 1)
+            if io.startswith("SKIPPED"):
+                continue        # V.run_cases stopped after MAX_CRASHES crashes: the verdict is already a violation
             j = mod.judge(case, io, mo, so)
             if j is not None:
                 viol.append((j[0], j[1], {"case": case, "impl": io, "model": mo, "spec": so, "config": c}))
